@@ -1,11 +1,12 @@
 package verifharness
 
-// C07 engine: single-fault enumeration over generated histories.
+// Single-fault enumeration over generated histories (C07; reused by the fault
+// phases of C17 and C18).
 //
 // A history is first executed fault-free to count the StoreFile calls N that
 // gkvlite issues on behalf of API calls; it is then re-executed once per
-// k in 1..N with call k failing (for writes additionally with three torn
-// lengths).  World.call classifies every API call against the plan.
+// k in 1..N with call k failing (for writes additionally with torn lengths).
+// World.call classifies every API call against the plan.
 
 var profFault = &Profile{
 	Name: "C07-fault", MinOps: 5, MaxOps: 30, NColls: 2, BigVals: true, EndOnly: 100,
@@ -13,14 +14,38 @@ var profFault = &Profile{
 		{OpVisit, 8}, {OpEvict, 7}, {OpFlush, 12}, {OpReopen, 7}, {OpRevert, 3}, {OpCopyTo, 3}, {OpBlock, 1}, {OpRandom, 1}, {OpDel, 1}},
 }
 
+// profIterFault: histories for the fault phase of C18 (visits and iterators
+// through all six APIs over file-backed stores).
+var profIterFault = &Profile{
+	Name: "C18-iterfault", MinOps: 5, MaxOps: 24, NColls: 2, EndOnly: 100,
+	Kinds: []wk{{OpSet, 34}, {OpDel, 6}, {OpFlush, 12}, {OpEvict, 8}, {OpReopen, 8}, {OpVisit, 30}, {OpLen, 2}, {OpSet, 2}},
+}
+
 var faultOpts = RunOpts{Prop: "C07"}
 
+// faultOptsFor returns the oracles active during the fault enumeration of a property.
+func faultOptsFor(prop string) RunOpts {
+	switch prop {
+	case "C18":
+		return RunOpts{Prop: "C18", RefsQuiescent: true, FreeCheck: true}
+	case "C17":
+		return RunOpts{Prop: "C17"}
+	}
+	return faultOpts
+}
+
+func propOfProfile(profile string) string {
+	if len(profile) >= 3 {
+		return profile[:3]
+	}
+	return "C07"
+}
+
 // faultFreeCount runs the history without faults and returns the number of
-// countable file calls and their kinds (index k-1 = kind of call k).
-func faultFreeCount(c Case) (v *Violation, n int, kinds []IOKind, lens []int, ev map[string]int) {
+// countable file calls, their kinds and requested lengths (index k-1 = call k).
+func faultFreeCount(c Case, opts RunOpts) (v *Violation, n int, kinds []IOKind, lens []int, ev map[string]int) {
 	plan := &FaultPlan{}
 	plan.OnCall = func(k IOKind, l int) { kinds = append(kinds, k); lens = append(lens, l) }
-	opts := faultOpts
 	opts.Plan = plan
 	v, ev = Run(c, opts)
 	return v, plan.Calls, kinds, lens, ev
@@ -43,10 +68,11 @@ func tornModes(n int, thorough bool) []int {
 	return []int{0, 1, 2, 3}
 }
 
-// RunFault executes one faulted run described by c.Cfg.FailAt / c.Cfg.Torn.
+// RunFault executes one faulted run described by c.Cfg.FailAt / c.Cfg.Torn
+// (Cfg.Extra[0]==1: the failed call is abandoned instead of retried).
 func RunFault(c Case) (*Violation, map[string]int, *FaultPlan) {
 	plan := &FaultPlan{FailAt: c.Cfg.FailAt, Torn: c.Cfg.Torn}
-	opts := faultOpts
+	opts := faultOptsFor(propOfProfile(c.Cfg.Profile))
 	opts.Plan = plan
 	v, ev := Run(c, opts)
 	return v, ev, plan
